@@ -109,8 +109,6 @@ def one(P, std, payload, mons=None):
             miss = [c for c in ec if gc.count(c) < ec.count(c)]
             extra = [c for c in gc if gc.count(c) > ec.count(c)]
             key = "keep:comment-lost-or-duplicated"
-            if not any(s.kind == "program" for s in P.stmts) and any(s.kind == "end_program" for s in P.stmts) and not extra:
-                key = "main-program-without-program-stmt-drops-leading-comments"
             return viol(key, "missing %r, surplus %r (of %d comments)" % (miss[:3], extra[:3], len(ec))), text, ncom
         if gc != ec:
             j = next(i for i, (x, y) in enumerate(zip(gc, ec)) if x != y)
